@@ -38,7 +38,7 @@ theorem cfun_string_split : LibSrc.cfun_string_split = "(int32_t v1, Janet *v2) 
 /-- src/core/string.c cfun_string_join -/
 theorem cfun_string_join : LibSrc.cfun_string_join = "(int32_t v1, Janet *v2) { janet_arity(v1, 1, 2); JanetView v3 = janet_getindexed(v2, 0); JanetByteView v4; if (v1 == 2) { v4 = janet_getbytes(v2, 1); } else { v4.bytes = NULL; v4.len = 0; } int32_t v5; int64_t v6 = 0; for (v5 = 0; v5 < v3.len; v5++) { const uint8_t *v7; int32_t v8 = 0; if (!janet_bytes_view(v3.items[v5], &v7, &v8)) { janet_panicf(\"item %d of parts is not a byte sequence, got %v\", v5, v3.items[v5]); } if (v5) v6 += v4.len; v6 += v8; if (v6 > INT32_MAX) janet_panic(\"result string too long\"); } uint8_t *v9, *v10; v10 = v9 = janet_string_begin((int32_t) v6); for (v5 = 0; v5 < v3.len; v5++) { const uint8_t *v7 = NULL; int32_t v8 = 0; if (v5) { safe_memcpy(v10, v4.bytes, v4.len); v10 += v4.len; } janet_bytes_view(v3.items[v5], &v7, &v8); safe_memcpy(v10, v7, v8); v10 += v8; } return janet_wrap_string(janet_string_end(v9)); }" := rfl
 /-- src/core/string.c cfun_string_slice -/
-theorem cfun_string_slice : LibSrc.cfun_string_slice = "(int32_t v1, Janet *v2) { JanetByteView v3 = janet_getbytes(v2, 0); JanetRange v4 = janet_getslice(v1, v2); return janet_stringv(v3.bytes + v4.start, v4.end - v4.start); }" := rfl
+theorem cfun_string_slice : LibSrc.cfun_string_slice = "(int32_t v1, Janet *v2) { janet_arity(v1, 1, 3); JanetByteView v3 = janet_getbytes(v2, 0); JanetRange v4 = janet_getslice(v1, v2); return janet_stringv(v3.bytes + v4.start, v4.end - v4.start); }" := rfl
 /-- src/core/string.c cfun_string_repeat -/
 theorem cfun_string_repeat : LibSrc.cfun_string_repeat = "(int32_t v1, Janet *v2) { janet_fixarity(v1, 2); JanetByteView v3 = janet_getbytes(v2, 0); int32_t v4 = janet_getinteger(v2, 1); if (v4 < 0) janet_panic(\"expected non-negative number of repetitions\"); if (v4 == 0) return janet_cstringv(\"\"); int64_t v5 = (int64_t) v4 * v3.len; if (v5 > INT32_MAX) janet_panic(\"result string is too long\"); uint8_t *v6 = janet_string_begin((int32_t) v5); uint8_t *v7 = v6 + v5; for (uint8_t *v8 = v6; v8 < v7; v8 += v3.len) { safe_memcpy(v8, v3.bytes, v3.len); } return janet_wrap_string(janet_string_end(v6)); }" := rfl
 /-- src/core/string.c cfun_string_bytes -/
@@ -112,7 +112,7 @@ theorem janet_array_push : LibSrc.janet_array_push = "(JanetArray *v1, Janet v2)
 /-- src/core/array.c cfun_array_fill -/
 theorem cfun_array_fill : LibSrc.cfun_array_fill = "(int32_t v1, Janet *v2) { janet_arity(v1, 1, 2); JanetArray *v3 = janet_getarray(v2, 0); Janet v4 = (v1 == 2) ? v2[1] : janet_wrap_nil(); for (int32_t v5 = 0; v5 < v3->count; v5++) { v3->data[v5] = v4; } return v2[0]; }" := rfl
 /-- src/core/array.c cfun_array_slice -/
-theorem cfun_array_slice : LibSrc.cfun_array_slice = "(int32_t v1, Janet *v2) { JanetView v3 = janet_getindexed(v2, 0); JanetRange v4 = janet_getslice(v1, v2); JanetArray *v5 = janet_array(v4.end - v4.start); if (v5->data) memcpy(v5->data, v3.items + v4.start, sizeof(Janet) * (v4.end - v4.start)); v5->count = v4.end - v4.start; return janet_wrap_array(v5); }" := rfl
+theorem cfun_array_slice : LibSrc.cfun_array_slice = "(int32_t v1, Janet *v2) { janet_arity(v1, 1, 3); JanetView v3 = janet_getindexed(v2, 0); JanetRange v4 = janet_getslice(v1, v2); JanetArray *v5 = janet_array(v4.end - v4.start); if (v5->data) memcpy(v5->data, v3.items + v4.start, sizeof(Janet) * (v4.end - v4.start)); v5->count = v4.end - v4.start; return janet_wrap_array(v5); }" := rfl
 /-- src/core/array.c cfun_array_concat -/
 theorem cfun_array_concat : LibSrc.cfun_array_concat = "(int32_t v1, Janet *v2) { int32_t v3; janet_arity(v1, 1, -1); JanetArray *v4 = janet_getarray(v2, 0); for (v3 = 1; v3 < v1; v3++) { switch (janet_type(v2[v3])) { default: janet_array_push(v4, v2[v3]); break; case JANET_ARRAY: case JANET_TUPLE: { int32_t v5, v6 = 0; const Janet *v7 = NULL; janet_indexed_view(v2[v3], &v7, &v6); if (v4->data == v7) { int32_t v8 = v4->count + v6; janet_array_ensure(v4, v8, 2); janet_indexed_view(v2[v3], &v7, &v6); } for (v5 = 0; v5 < v6; v5++) janet_array_push(v4, v7[v5]); } break; } } return janet_wrap_array(v4); }" := rfl
 /-- src/core/array.c cfun_array_insert -/
@@ -120,7 +120,7 @@ theorem cfun_array_insert : LibSrc.cfun_array_insert = "(int32_t v1, Janet *v2) 
 /-- src/core/array.c cfun_array_remove -/
 theorem cfun_array_remove : LibSrc.cfun_array_remove = "(int32_t v1, Janet *v2) { janet_arity(v1, 2, 3); JanetArray *v3 = janet_getarray(v2, 0); int32_t v4 = janet_getinteger(v2, 1); int32_t v5 = 1; if (v4 < 0) { v4 = v3->count + v4; } if (v4 < 0 || v4 > v3->count) janet_panicf(\"removal index %d out of range [0,%d]\", v4, v3->count); if (v1 == 3) { v5 = janet_getinteger(v2, 2); if (v5 < 0) janet_panicf(\"expected non-negative integer for argument n, got %v\", v2[2]); } if (v5 > v3->count - v4) { v5 = v3->count - v4; } if (v5 > 0) { memmove(v3->data + v4, v3->data + v4 + v5, (size_t)(v3->count - v4 - v5) * sizeof(Janet)); v3->count -= v5; } return v2[0]; }" := rfl
 /-- src/core/tuple.c cfun_tuple_slice -/
-theorem cfun_tuple_slice : LibSrc.cfun_tuple_slice = "(int32_t v1, Janet *v2) { JanetView v3 = janet_getindexed(v2, 0); JanetRange v4 = janet_getslice(v1, v2); return janet_wrap_tuple(janet_tuple_n(v3.items + v4.start, v4.end - v4.start)); }" := rfl
+theorem cfun_tuple_slice : LibSrc.cfun_tuple_slice = "(int32_t v1, Janet *v2) { janet_arity(v1, 1, 3); JanetView v3 = janet_getindexed(v2, 0); JanetRange v4 = janet_getslice(v1, v2); return janet_wrap_tuple(janet_tuple_n(v3.items + v4.start, v4.end - v4.start)); }" := rfl
 /-- src/core/tuple.c cfun_tuple_join -/
 theorem cfun_tuple_join : LibSrc.cfun_tuple_join = "(int32_t v1, Janet *v2) { janet_arity(v1, 0, -1); int32_t v3 = 0; for (int32_t v4 = 0; v4 < v1; v4++) { int32_t v5 = 0; const Janet *v6 = NULL; if (!janet_indexed_view(v2[v4], &v6, &v5)) { janet_panicf(\"expected indexed type for argument %d, got %v\", v4, v2[v4]); } if (INT32_MAX - v3 < v5) { janet_panic(\"tuple too large\"); } v3 += v5; } Janet *v7 = janet_tuple_begin(v3); Janet *v8 = v7; for (int32_t v4 = 0; v4 < v1; v4++) { int32_t v5 = 0; const Janet *v6 = NULL; janet_indexed_view(v2[v4], &v6, &v5); safe_memcpy(v8, v6, v5 * sizeof(Janet)); v8 += v5; } return janet_wrap_tuple(janet_tuple_end(v7)); }" := rfl
 /-- src/core/corelib.c janet_core_range -/
@@ -152,7 +152,7 @@ theorem cfun_array_peek : LibSrc.cfun_array_peek = "(int32_t v1, Janet *v2) { ja
 /-- src/core/array.c cfun_array_push -/
 theorem cfun_array_push : LibSrc.cfun_array_push = "(int32_t v1, Janet *v2) { janet_arity(v1, 1, -1); JanetArray *v3 = janet_getarray(v2, 0); if (INT32_MAX - v1 + 1 <= v3->count) { janet_panic(\"array overflow\"); } int32_t v4 = v3->count - 1 + v1; janet_array_ensure(v3, v4, 2); if (v1 > 1) memcpy(v3->data + v3->count, v2 + 1, (size_t)(v1 - 1) * sizeof(Janet)); v3->count = v4; return v2[0]; }" := rfl
 /-- src/core/buffer.c cfun_buffer_slice -/
-theorem cfun_buffer_slice : LibSrc.cfun_buffer_slice = "(int32_t v1, Janet *v2) { JanetByteView v3 = janet_getbytes(v2, 0); JanetRange v4 = janet_getslice(v1, v2); JanetBuffer *v5 = janet_buffer(v4.end - v4.start); if (v5->data) memcpy(v5->data, v3.bytes + v4.start, v4.end - v4.start); v5->count = v4.end - v4.start; return janet_wrap_buffer(v5); }" := rfl
+theorem cfun_buffer_slice : LibSrc.cfun_buffer_slice = "(int32_t v1, Janet *v2) { janet_arity(v1, 1, 3); JanetByteView v3 = janet_getbytes(v2, 0); JanetRange v4 = janet_getslice(v1, v2); JanetBuffer *v5 = janet_buffer(v4.end - v4.start); if (v5->data) memcpy(v5->data, v3.bytes + v4.start, v4.end - v4.start); v5->count = v4.end - v4.start; return janet_wrap_buffer(v5); }" := rfl
 /-- boot.janet each-template -/
 theorem boot_each_template : LibSrc.boot_each_template = "(defn- each-template [v1 v2 v3 v4] (with-syms [v5] (def v6 (if (idempotent? v2) v2 (gensym))) ~(do ,(unless (= v6 v2) ~(def ,ds ,inx)) (var ,k (,next ,ds nil)) (while (,not= nil ,k) (def ,binding ,(case v3 :each ~(,in ,ds ,k) :keys v5 :pairs ~[,k (,in ,ds ,k)])) ,;body (set ,k (,next ,ds ,k))))))" := rfl
 /-- boot.janet median-of-three -/
